@@ -178,8 +178,20 @@ static json eig_event(const std::vector<std::vector<double>>& m, const std::vect
 				ev["sysvalq"] = quant(w, 1e-9 * norm);
 			}
 			ev["normq"] = quant(wn, 1e-12);
-			ev["resq"]	= quant(wr, 1e-9 * norm);	  // the inverse iteration stops when successive vectors agree to 1e-10
+			ev["resq"]	= quant(wr, 1e-11 * norm);	  // after the refinement steps the residual is at rounding level (measured <= 1e-13 ||M||)
 			ev["parq"]	= quant(wp, 1e-9);
+			if(getenv("VERIF_DEBUG") && quant(wr, 1e-9 * norm) > 1)
+			{
+				fprintf(stderr, "DBGEIG n=%d wr=%g norm=%g\n", n, wr, norm);
+				for(int a = 0; a < n; a++)
+				{
+					for(int k = 0; k < n; k++)
+						fprintf(stderr, "%.17g,", m[a][k]);
+					fprintf(stderr, "\n");
+				}
+				for(double l : lam)
+					fprintf(stderr, "lam %.17g\n", l);
+			}
 		}
 	}
 	return ev;
